@@ -336,6 +336,30 @@ def run(ctx) -> None:
         default = [p for p in qps if not any(k for t, k in p.tests if "EnvelopeFormat." in u(t) and subj in u(t))]
         if default and all(p.kind == "raise" and u(p.value).startswith("ValueError") for p in default):
             handled |= set(members)
+        elif default:
+            # a closed enumeration: the path on which every other member was ruled out is the arm of the one that remains, provided it
+            # ends like an arm (an answer built from what the path bound, or the refusal) and not by running off the arms
+            cfn_ = ctx.cfn(f"{ENV}.{who}")
+            locals_ = {n.id for n in ast.walk(cfn_) if isinstance(n, ast.Name) and isinstance(n.ctx, ast.Store)}
+            left = set()
+            for p in default:
+                ruled_out = set()
+                for t, k in p.tests:
+                    e = tmatch(t, T(f"{subj} == EnvelopeFormat.L_m")) or tmatch(t, T(f"{subj} is EnvelopeFormat.L_m"))
+                    if e is not None and not k:
+                        ruled_out.add(e["L_m"])
+                bound, unbound = set(), set()
+                for x in [*p.effects, *([p.value] if p.value is not None else [])]:
+                    stores = {n.id for n in ast.walk(x) if isinstance(n, ast.Name) and isinstance(n.ctx, ast.Store)}
+                    loads = {n.id for n in ast.walk(x) if isinstance(n, ast.Name) and isinstance(n.ctx, ast.Load)} - stores
+                    if isinstance(x, ast.AugAssign) and isinstance(x.target, ast.Name):
+                        loads.add(x.target.id)
+                    unbound |= (loads & locals_) - bound
+                    bound |= stores
+                arm_like = (p.kind == "raise" and u(p.value).startswith("ValueError")) or (p.kind == "return" and p.value is not None and not unbound)
+                left.add(frozenset(set(members) - ruled_out) if arm_like else frozenset(members))
+            if len(left) == 1 and len(next(iter(left))) == 1:
+                handled |= next(iter(left))
         fn_ = me if who == "make_envelope" else re_
         ctx.check(handled == set(members), "C09.R5", f"{who}: every format handled", m.path, fn_.lineno,
                   f"{who} must have an arm for every EnvelopeFormat member", fn_, expected=str(sorted(members)), found=str(sorted(handled)))
@@ -411,6 +435,8 @@ MUTANTS = [
     dict(name="rejection-swallowed", file=P, expect="C09.R3", old="        return read_envelope(envelope)", new="        try:\n            return read_envelope(envelope)\n        except ValueError:\n            return Package([])"),
     dict(name="text-gate-removed", file=E, expect="C09.R4", old="    if not config.format.ascii_printable():\n        msg = \"Only ascii-printable envelope formats can be encoded into a string.\"\n        raise ValueError(msg)\n", new=""),
     dict(name="module-printable", file=E, expect="C09.R4", old="        return self in {EnvelopeFormat.JSON}", new="        return self in {EnvelopeFormat.JSON, EnvelopeFormat.MODULE}"),
+    dict(name="module-arm-removed", file=E, expect=["C09.R5", "C09.R2"], old="        case EnvelopeFormat.MODULE:\n            payload = bytes(package.to_model())\n\n", new=""),
+    dict(name="module-arm-merged-into-exts", file=E, expect="C09.R5", old="        case EnvelopeFormat.MODULE:\n            payload = bytes(package.to_model())\n\n        case EnvelopeFormat.MODULE_WITH_EXTS:", new="        case _:"),
     dict(name="to-str-uses-bytes-reader", file=P, expect="C09.R5", old="        return read_envelope_str(envelope)", new="        return read_envelope(envelope)  # type: ignore[arg-type]"),
     dict(name="json-arm-skips-validation", file=E, expect="C09.R5", old="            return ext_s.Package.model_validate_json(payload).deserialize()", new="            return ext_s.Package.model_construct(**json.loads(payload)).deserialize()"),
     dict(name="package-drops-extensions", file=P, expect="C09.R6", old="            extensions=[e._to_serial() for e in self.extensions],", new="            extensions=[],"),
